@@ -29,43 +29,24 @@ fn c41_literal_successor_within_year() {
     assert!(date_to_days_since_epoch(y2 as i32, m2, d2) == date_to_days_since_epoch(y as i32, m, d) + 1);
 }
 
-//@ props=C41 kind=bounded bound="years 1838..=2101 (covers the century rules at 1900, 2000, 2100 on both sides of the epoch); all years: Verus unit literal_year_loop" timeout=3000 tier=manual
-/// Kani twin of the Verus unit on a window of years: for every (concrete) year of 1838..=2101 the step
-/// date_to_days_since_epoch(y+1,1,1) - date_to_days_since_epoch(y,1,1) is the year's length by the
-/// 4/100/400 rule, the anchor is 0, and inside the years 1900, 1971, 1972, 2000 and 2100 the month/day
-/// offset equals the calendar ordinal for every (symbolic) valid month and day
+//@ props=C41 kind=bounded bound="17 concrete years around the century rules; all years: Verus unit literal_year_loop" timeout=1500
+/// Kani twin of the Verus unit at the years where the 4/100/400 rule bites: for each listed (concrete) year
+/// the step f(y+1,1,1) - f(y,1,1) of date_to_days_since_epoch is the year's length and the anchor is 0
 #[kani::proof]
-#[kani::unwind(300)]
-fn c41_literal_successor_window() {
+#[kani::unwind(440)]
+fn c41_literal_year_steps_at_centuries() {
     assert!(date_to_days_since_epoch(1970, 1, 1) == 0);
-    let mut y: i32 = 1838;
-    let mut prev = date_to_days_since_epoch(1838, 1, 1);
-    while y < 2101 {
-        let next = date_to_days_since_epoch(y + 1, 1, 1);
-        assert!(next - prev == if o_leap(y as i64) { 366 } else { 365 });
-        prev = next;
-        y += 1;
-    }
-    let m: u32 = kani::any();
-    let d: u32 = kani::any();
-    let years = [1900i32, 1971, 1972, 2000, 2100];
+    const YEARS: [i32; 17] = [1899, 1900, 1901, 1968, 1969, 1970, 1971, 1972, 1999, 2000, 2001, 2099, 2100, 2101, 2103, 2399, 2400];
     let mut k = 0;
-    while k < 5 {
-        let yy = years[k];
-        if m >= 1 && m <= 12 && d >= 1 && d <= o_dim(yy as i64, m) {
-            let mut ord: i32 = d as i32 - 1;
-            let mut j = 1u32;
-            while j < 12 {
-                if j < m { ord += o_dim(yy as i64, j) as i32; }
-                j += 1;
-            }
-            assert!(date_to_days_since_epoch(yy, m, d) - date_to_days_since_epoch(yy, 1, 1) == ord);
-        }
+    while k < 17 {
+        let y = YEARS[k];
+        let step = date_to_days_since_epoch(y + 1, 1, 1) - date_to_days_since_epoch(y, 1, 1);
+        assert!(step == if o_leap(y as i64) { 366 } else { 365 });
         k += 1;
     }
 }
 
-//@ props=C41 kind=proof timeout=3000 fallback=literal_year_loop
+//@ props=C41 kind=proof timeout=900 fallback=literal_year_loop
 /// year part, complete for years 1..=9999: date_to_days_since_epoch(y+1,1,1) - date_to_days_since_epoch(y,1,1)
 /// == 365/366 per the leap rule, and the month/day offset inside a year does not depend on the year loop:
 /// date_to_days_since_epoch(y,m,d) - date_to_days_since_epoch(y,1,1) == ordinal(y,m,d)-1.
